@@ -7,14 +7,16 @@ CHECKS["C01"] = (
     _CH,
     "Every obligation (point maps, sub-interval and relative-location conversions, FeatureInterval wrappers) is decided "
     "for ALL integer coordinates of every layout with <=3 (quick) / <=4 (thorough) blocks on both strands: the path tree is "
-    "exhausted and each path's negated oracle is unsat. A seeded off-by-one/strand bug is returned as a concrete input and replayed.",
+    "exhausted and each path's negated oracle is unsat; the relative-location conversions also leave both operands unchanged. A seeded "
+    "off-by-one/strand bug is returned as a concrete input and replayed.",
     _NOTE, "DESIGN.md §3 C01")
 CHECKS["C02"] = (
     _CH,
     "Each set operation (has_overlap, intersection, union, union_preserve_overlaps, minus, contains, gaps, optimisers, extend, "
     "reverse, shift, distance) is compared with position-set semantics through one symbolic probe position and closed forms, "
     "for ALL integer coordinates of operands up to (2,1)/(1,2) blocks (quick; 2x2 for full-span, 3x2 for INNER distance) and "
-    "(2,2),(3,1),(1,3) (thorough), all flag combinations, parents none/equal/mismatched; result normal form asserted.",
+    "(2,2),(3,1),(1,3) (thorough), all flag combinations, parents none/equal/mismatched (by id, sequence, sequence type, grand-parent); result normal form asserted; "
+    "every obligation also asserts both operands unchanged.",
     _NOTE, "DESIGN.md §3 C02")
 CHECKS["C06"] = (
     _CH,
@@ -26,8 +28,10 @@ CHECKS["C16"] = (
     "src2smt: bins() translated from its AST to z3 integer terms at every run; z3 + cvc5 decide each query over all integers",
     "bins() is re-translated from /repo's source on every run and validated against the real function on boundary grids; "
     "UCSC-equality, out-of-range, containment, int-return and the never-hidden contract (contained and overlapping) are unsat "
-    "queries over ALL integers (no bound); constructor wiring (incl. chunk parents) is decided by CrossHair. Two recorded "
-    "deviations (F6a, F6b) are excluded by their exact regions and replayed on every run.",
+    "queries over ALL integers (no bound); helper functions are inlined and module-level memo tables are encoded as arbitrary earlier calls "
+    "(free variables), so the queries hold for every call history; constructor wiring (incl. chunk parents) and the CONSUMER - range queries of "
+    "the real AnnotationCollection code against the exact bin terms, strict and relaxed, 2-isoform gene with a gap - are decided by CrossHair. "
+    "Recorded deviations (F6a, F6b, F6e) are excluded by their exact regions and replayed on every run.",
     "Trusted: z3 5.1 / cvc5 1.4 on LIA with div by constants; the translator (validated per run); the independent UCSC "
     "reference in harness/c16.py. If bins() leaves the translatable subset the SMT obligations are inconclusive and a "
     "concrete boundary-grid fallback (stated in evidence) is the only remaining detector.",
@@ -38,7 +42,7 @@ CHECKS["C14"] = (
     "faithful decoding are asserted on the record AND on str(BED12) read back by a 12-column reader through symbolic-token "
     "rendering, for all integer coordinates of <=3 (quick) / <=4 (thorough) block transcripts/features, coding (every exon "
     "sub-span) or not, both strands, chromosome mode, chunk-built chromosome mode and chunk-relative mode with a symbolic chunk "
-    "offset; adjacent blocks; both modes asked of one object in either order.",
+    "offset; adjacent blocks; 5'-partial CDSs (start frame 1/2); both modes asked of one object in either order.",
     _NOTE, "DESIGN.md §3 C14")
 CHECKS["C05"] = (
     _CH,
@@ -54,16 +58,19 @@ CHECKS["C15"] = (
     "The finite domains are decided completely: gencode vs the standard code (64), every expansion of every translatable IUPAC "
     "triplet (16^3), aacodons partition, start/stop sets vs NCBI tables 1/11, complement tables (totality, IUPAC agreement, "
     "involution, case) as unsat z3 queries over tables read from the live modules; CDSFrame.shift laws for ALL integers, "
-    "frame<->phase, strand group/order laws and the real Codon class on all 4096 IUPAC triplets by CrossHair.",
+    "frame<->phase, strand group/order laws and the real Codon class on all 4096 IUPAC triplets by CrossHair; a held strict codon keeps every "
+    "answer after any other codon over ACGTU (either case) is constructed (singleton table isolation).",
     "Trusted: Bio.Data.CodonTable / IUPACData as reference tables; z3 5.1 (cvc5 1.4 cross-check); CrossHair for the laws.",
     "DESIGN.md §3 C15")
 CHECKS["C18"] = (
     "bounded symbolic execution (CrossHair): the dictionary's key subset and insertion ORDER are symbolic; inputs are realised at the dict/regex boundary and the solver closes the finite order space",
     "extract_feature_name_id is run on EVERY ordered selection of <=3 (quick) / 4 (thorough) keys from a 14-key catalogue (all "
     "recognised keys in mixed case, look-alikes, note) against the documented priority spec; extract_feature_types on every ordered "
-    "pair/triple of a 12-key catalogue; merge_qualifiers on every pair of catalogue dictionaries (union, sorted, no aliasing). "
+    "pair/triple of a 12-key catalogue; merge_qualifiers on every pair of catalogue dictionaries (union, sorted, no aliasing); the model-side "
+    "merge (_merge_qualifiers / export_qualifiers of feature, transcript, CDS) on every pair of a 10-dictionary catalogue; "
+    "gff3.parser.filter_and_sort_qualifiers on 3-subsets of a 25-key catalogue (exact reserved keys only). "
     "The rank-0 override (F1) is excluded by its exact region and replayed.",
-    _NOTE + " The GenBank-record-permutation and gff3.parser clauses are outside the claim (modules not importable here).",
+    _NOTE + " The GenBank-record-permutation clause is outside the claim (module not importable here).",
     "DESIGN.md §3 C18")
 CHECKS["C03"] = (
     "bounded symbolic execution (CrossHair): location coordinates are symbolic, realised at the string-slicing boundary; the solver closes the finite coordinate space over tagged (all-letters-distinct) parent sequences",
@@ -88,7 +95,9 @@ CHECKS["C07"] = (
     "num_codons) are identical; the chunk-relative location lifted back equals the chromosome location inside the window (EmptyLocation "
     "when disjoint); chunk-relative codons lifted back are exactly the reading-frame model's codons fully inside the window (exon "
     "lengths/frames driver-enumerated, offsets symbolic; a realised variant covers more length/frame vectors); sequences/translation on "
-    "the chunk equal the in-window stretch; CDS never dropped while the transcript stays coding. F8b excluded by its exact region.",
+    "the chunk equal the in-window stretch; CDS never dropped while the transcript stays coding; a CDS with no base in the chunk has no "
+    "chunk-relative codon; computed identifiers (real MD5) of feature/transcript/CDS/gene/collections equal across no parent / chromosome / chunk. "
+    "F8b and F18 excluded by their exact regions.",
     _NOTE, "DESIGN.md §3 C07")
 CHECKS["C08"] = (
     _CH + "; cvc5/z3 string queries over digest pre-image templates extracted from the real constructors",
@@ -96,8 +105,9 @@ CHECKS["C08"] = (
     "offset included); with the real MD5 on realised coordinates: equal content/any qualifier order/round trip => equal guid, one "
     "changed coordinate/strand/frame => different guid; digest pre-image injectivity for coordinates of ANY length <= 9 digits as "
     "unsat string queries (templates regenerated by running the real constructors with md5 recorded, validated on a second run); "
-    "qualifier key/value insertion orders and set iteration orders (6x6x6); pickle with none/chromosome/chunk parents; schema+JSON "
-    "load/dump. F7 (VariantInterval pre-image without separator) recorded.",
+    "qualifier key/value insertion orders and set iteration orders (6x6x6, values differing only by case included); transcripts built from "
+    "phases; pickle with none/chromosome/un-named chromosome/chunk parents and variant collections; schema+JSON load/dump with and without "
+    "variants. F7 (VariantInterval pre-image without separator) recorded.",
     _NOTE + " MD5 collision freedom assumed; pickle's byte format and a process-level PYTHONHASHSEED sweep are outside the claim.",
     "DESIGN.md §3 C08")
 CHECKS["C13"] = (
@@ -106,8 +116,8 @@ CHECKS["C13"] = (
     "the real lift-over helpers with UNBOUNDED symbolic variant and block coordinates (alt lengths 0..3 driver-enumerated, 1-2 "
     "block locations, 2-variant collections, overlap refusal); on a concrete 24-nt reference (variant offsets/spans/alts closed by "
     "the solver, whole chromosome and chunk): alternative_genomic_sequence == literal substitution, lifted locations and "
-    "Feature/Transcript/CDS.incorporate_variants reproduce the edited reference (CDS also in frame). F4 (left-to-right collection "
-    "lift-over) recorded with its region.",
+    "Feature/Transcript(coding and non-coding)/CDS.incorporate_variants reproduce the edited reference (CDS also in frame and inside the "
+    "exons); 3-variant collections in any order refused exactly when a pair overlaps. F4 (left-to-right collection lift-over) recorded with its region.",
     _NOTE + " The VCF grouping clause is outside the claim (PyVCF absent).", "DESIGN.md §3 C13")
 CHECKS["C20"] = (
     _CH,
@@ -118,33 +128,37 @@ CHECKS["C20"] = (
     "start (stable) with inferred bounds; primary sequence accessors on a concrete genome.",
     _NOTE, "DESIGN.md §3 C20")
 CHECKS["C09"] = (
-    _CH + " with an assume/guarantee split: the bin pre-filter is replaced by a nondeterministic CONTRACT stub whose contract C16 proves for the real bins()",
+    _CH + "; the bin pre-filter is modelled twice: by the EXACT semantics of bins() (z3 terms generated from its source, bin numbers symbolic) and by a nondeterministic CONTRACT stub whose contract C16 proves",
     "Position queries on 2-member collections (gene/gene, gene/feature collection, gene/variant collection) with UNBOUNDED symbolic "
     "member coordinates, collection bounds and query range, for the flag combinations (all 8 for gene+feature collection): member "
     "returned <=> strict/relaxed geometric spec and coding filter, whatever the bin stub answers outside its contract; result "
     "bounds (incl. expansion), members' coordinates/dictionary form/child guids unchanged, invalid ranges refused; guid / "
     "interval-guid / identifier queries for every enumerated request set; interval-guid sub-selection; realised legs with the REAL "
-    "bins and real sequence re-chunking (sequences restricted to new bounds, idempotence, chunk offsets across a 128 kb boundary, "
-    "2^29 boundary = recorded finding F6c).",
+    "bins and real sequence re-chunking (sequences restricted to new bounds, idempotence, chunk offsets across a 128 kb boundary, members cut "
+    "by the chunk edge, 2^29 boundary = recorded finding F6c); strict and relaxed queries against the exact bin terms for ALL integer "
+    "coordinates (F6d region excluded).",
     _NOTE + " cgranges branch not installed, not covered.", "DESIGN.md §3 C09")
 CHECKS["C19"] = (
     _CH + " in CrossHair's native mode: search for an input that raises an undocumented exception or yields an ill-formed object",
     "Constructors and 18 coordinate methods of locations are called with UNCONSTRAINED symbolic integers (negative, inverted, huge) on "
     "all three strands; Parent/Sequence/CDS/Transcript/Feature/Gene/collection/variant constructors with every kind of inconsistent "
     "argument; boundary probes (zero-length requests, window == length, empty/duplicate children, codon-less CDS, 5000-block "
-    "locations under the default recursion head-room). Post-condition: a well-formed value, or an exception from the allowed set "
+    "locations under the default recursion head-room, query ranges with unconstrained integers, 3-variant collections in any order). Post-condition: a well-formed value, or an exception from the allowed set "
     "(BioCantorException subclasses, ValueError, TypeError, NotImplementedError); any other exception is a counterexample.",
     _NOTE, "DESIGN.md §3 C19")
 CHECKS["C11"] = (
-    _CH + "; z3 queries over the live escape tables",
-    "EXPORT side only: rows of a collection (gene with coding + non-coding transcript, feature collection) with UNBOUNDED symbolic "
+    _CH + "; z3 queries over the live escape tables; the export->parse leg runs the real gffutils-based parser natively on realised inputs",
+    "EXPORT: rows of a collection (gene with coding + non-coding transcript, feature collection) with UNBOUNDED symbolic "
     "coordinates are rendered through symbolic tokens and read back column by column: 9 columns, 1-based inclusive start<=end "
     "equal to the source blocks, strand symbols, phase only on CDS rows and equal to the frame-derived phase, unique IDs, Parents "
     "defined earlier, rows ordered by start, both coordinate modes (chunk at symbolic offset); escape tables over ALL code points "
     "(z3) and every string of length <=3 (thorough 4) over a 16-character special alphabet through the real escape functions and "
     "GFFAttributes (percent-decoding returns the original, comma = documented value separator, empty -> nan); reserved keys; writer "
-    "headers/ordering/FASTA section. F15 (shared-CDS isoforms duplicate CDS row IDs) recorded.",
-    _NOTE + " The re-parse legs (io.gff3.parser: gffutils/sqlite3) are outside the claim.", "DESIGN.md §3 C11")
+    "headers/ordering/FASTA section. EXPORT->PARSE: for 3 exon layouts (incl. a 0-bp gap), every CDS window, 3 start frames x 3 frame-vector modes, "
+    "isoform kinds, identifier and biotype patterns, with and without FASTA: the parsed gene models equal the source (exons, CDS blocks, frames, "
+    "strand, ids, symbols, locus tag, biotypes, protein id, product, qualifiers, sequences), re-export reproduces columns 1-8 and is a fixed point "
+    "from the second generation. F15, F16, F17 recorded.",
+    _NOTE + " The parse legs are realised (gffutils/sqlite3 run natively): exhaustive over the stated finite spaces only.", "DESIGN.md §3 C11, §8.1")
 CHECKS["C17"] = (
     _CH,
     "Interval lines of gene/RNA features with UNBOUNDED symbolic coordinates rendered through symbolic tokens and read back by an "
@@ -160,8 +174,9 @@ CHECKS["C10"] = (
     "objects on whole-chromosome and chunk parents, EVERY schedule of 2 (quick) / 3 (thorough) operations from a 13-24 operation "
     "catalogue per class (incl. evicting the 1000-entry global Parent cache and using an unrelated twin) is closed by the solver: "
     "the last answer equals a fresh twin's in value AND type, and the object's snapshot (str, to_dict, hash, guid, blocks, qualifiers, "
-    "children's dictionaries/qualifiers/blocks) is unchanged. H1: with unbounded symbolic coordinates, after filling the hand-written "
-    "lazy slots of a CompoundInterval every accessor answers as on an untouched twin.",
+    "children's dictionaries/qualifiers/blocks) is unchanged; reference answers come from a clean global Parent cache and a twin built after the "
+    "schedule must agree with it (3-level hierarchies included). H1: with unbounded symbolic coordinates (overlapping/nested layouts included), "
+    "after filling the hand-written lazy slots of a CompoundInterval every accessor answers as on an untouched twin.",
     _NOTE + " Histories longer than 3 operations and multi-threaded use are outside the claim.", "DESIGN.md §3 C10")
 for _p in []:
     NOT_APPLICABLE[_p] = "check not built yet (build in progress; see DESIGN.md §3 for the planned solver-based check)"
